@@ -307,7 +307,8 @@ impl SchemaCatalog {
         let content = serde_json::to_string_pretty(self)
             .map_err(|e| SchemaError::IoError(format!("Failed to serialize schemas: {e}")))?;
 
-        fs::write(path, content)
+        // Write-to-temp + fsync + rename: a crash never leaves a truncated catalog behind
+        crate::storage::metadata::write_file_atomic(path, content.as_bytes())
             .map_err(|e| SchemaError::IoError(format!("Failed to write schema catalog: {e}")))?;
 
         Ok(())
